@@ -555,8 +555,16 @@ def r3_copy(program, rep):
                                    (("attr", NP, "chip"),
                                     ("attr", NN, "chip"), MACH2), ()))
         bv, bn, _, _, (pair,) = brk[0]
-        okc = (guard, True) in facts_at(av, an) and \
-            (guard, False) in facts_at(bv, bn) and \
+        fa_, fb_ = facts_at(av, an), facts_at(bv, bn)
+        if not any(st_[0] in ("call", "callv") and
+                   st_[1] == ("global", "links_between")
+                   for t_, p_ in fa_ + fb_ for st_ in subterms(t_)):
+            # whether a hop works is decided some other way than by
+            # membership in links_between(...): not read here
+            raise AnalysisError("copy_and_disconnect_tree: the test that a "
+                                "hop is a working link does not use "
+                                "links_between(parent, child, machine)")
+        okc = (guard, True) in fa_ and (guard, False) in fb_ and \
             pair == ("tuple", ("attr", NP, "chip"), ("attr", NN, "chip"))
     rep.check(okc, "C03-R3", qual(cp), "a child is attached iff its own hop "
               "direction is one of the working links from the parent's chip "
@@ -675,6 +683,24 @@ def r5_reconnect(program, rep):
         # (set(<generator>) and the set comprehension are one term)
         want = ("setcomp", ("attr", ("elem", SUB), "chip"), ((SUB, ()),))
         okx = plain(EXCL) == plain(want)
+        if not okx:
+            # ... or the same set filled by a loop over the sub-tree
+            try:
+                built_ = T.filtered(EXCL)
+            except AnalysisError:
+                built_ = None
+            if built_ and len(built_) == 1:
+                okx = plain(built_[0][0]) == plain(SUB) and \
+                    plain(built_[0][1]) == ("attr", ("elem", plain(SUB)),
+                                            "chip") and not built_[0][2]
+            elif plain(EXCL)[0] not in ("item", "get") and any(
+                    st_ == ("elem", BROKEN) for st_ in subterms(EXCL)):
+                # (a look-up in a table is a set prepared beforehand: stale)
+                # computed for this orphan, in a form not read here
+                raise AnalysisError("avoid_dead_links: the chips excluded "
+                                    "from the reconnection targets are "
+                                    "computed in a form these rules do not "
+                                    "read")
     rep.check(okx, "C03-R5", inst, "the excluded chips are the chips of the "
               "orphan's own sub-tree, recomputed from the live tree for "
               "every orphan (earlier repairs may have grafted other orphans "
@@ -766,6 +792,12 @@ def r5_reconnect(program, rep):
                                     and NEW in (c__[2], c__[3]):
                                 edges.append(c__)
             okd = bool(edges)
+    if not okd and dom == "?" and rms:
+        # a removal exists but the grafting loop is not in the form read
+        # here (one append of the node just resolved, one removal)
+        raise AnalysisError("avoid_dead_links: the detour is grafted in a "
+                            "form these rules do not read (%d graft site(s), "
+                            "%d removal(s))" % (len(grafts), len(rms)))
     rep.check(okd, "C03-R5", inst, "a node of the orphan that the detour "
               "passes through is first detached from its previous parent, "
               "which is searched for among every node of the tree",
